@@ -281,8 +281,9 @@ def judgeC18 (op : POp) (out : String) : Expect :=
     if k < 8 then .exact "n=0 err tooShortT" else .exact s!"n={adu.length} nil"
   | .hdr h body =>
     if h.length != 8 then .free else
-    -- the clause is about frames of which all announced bytes are available
-    if beVal h 4 + 6 > 8 + body.length then .noPanic else
+    -- the parsing clause is about frames of which all announced bytes are available; the expected length and the
+    -- unsupported-function clause speak about the header alone
+    let complete := beVal h 4 + 6 ≤ 8 + body.length
     match out.splitOn " | " with
     | [l] =>
       -- classifier did not accept: if it named an unsupported function it must carry the matching exception
@@ -294,6 +295,7 @@ def judgeC18 (op : POp) (out : String) : Expect :=
     | [l, p] =>
       let n := beVal h 4 + 6
       if l != s!"n={n} nil" then .pred false s!"accepted header must report expected length {n}" else
+      if !complete then .noPanic else
       if p.startsWith "ok " then .pred true "" else
       match (fieldOf p "eb").bind unhex with
       | some eb => .pred (validExceptionFor h eb) "a rejected accepted-frame must encode to a valid exception reply for its header"
